@@ -10,7 +10,8 @@ import warnings
 from fractions import Fraction
 import kv, algs, opcorr as oc
 
-RULE = ('operators {gp, op, ip, lc, rc, sp, cp, acp, rp, add, sub, sw, proj, neg, reverse, involute, conjugate, hodge, normsq, inv, div} '
+RULE = ('[symbols are named from a pool mixing case, digits and underscores; norm / normalized / sqrt on positive-definite algebras with floats; after each call the '
+        'sum x+x (same blades, same symbols) is called on the same algebra and then x again] operators {gp, op, ip, lc, rc, sp, cp, acp, rp, add, sub, sw, proj, neg, reverse, involute, conjugate, hodge, normsq, inv, div} '
         'x random key patterns (d <= 3, random signatures) x random symbolic/numeric partitions x one random rational assignment; '
         'substitution by call (positional, keyword) and by subs.  Non-trivial = at least one symbolic coefficient and a non-empty result; '
         'distinct = distinct (algebra, operator, keys, partition).')
@@ -20,6 +21,9 @@ ASSUMPTIONS = ['rational operators are evaluated away from poles (assignments ma
 
 BIN = ['gp', 'op', 'ip', 'lc', 'rc', 'sp', 'cp', 'acp', 'rp', 'add', 'sub', 'sw', 'proj', 'div']
 UN = ['neg', 'reverse', 'involute', 'conjugate', 'hodge', 'normsq', 'inv']
+ROOTS = ['norm', 'normalized', 'sqrt']          # methods that introduce a square root (floats, 1e-9)
+# symbol names: upper / lower case, digits, underscores, several characters - "name order" is python's string order
+NAMES = ['a', 'B', 'c', 'D', 'p', 'R', 'x1', 'X2', 'x10', 'alpha', 'Beta', 'z_1', 'Z_0', 'q', 'Q', 'v', 'W', 'k2', 'K2', 'm', 'N', 't0', 'T1', 'u', 'Ua']
 
 
 def run(R, tier):
@@ -40,22 +44,33 @@ def run(R, tier):
         spec = {'sig': [rng.choice((1, 1, -1, 0)) for _ in range(d)]}
         alg = algs.make_impl(spec)
         canon = list(alg.canon2bin.values())
-        op = rng.choice(BIN + UN)
+        op = rng.choice(BIN + UN + ROOTS)
+        root = op in ROOTS
+        if root:                           # stay inside the domain: a positive-definite metric
+            spec = {'sig': [1] * d}
+            alg = algs.make_impl(spec)
+            canon = list(alg.canon2bin.values())
         ar = 2 if op in BIN else 1
-        heavy = op in ('sw', 'proj', 'div', 'inv', 'normsq')
+        heavy = op in ('sw', 'proj', 'div', 'inv', 'normsq') or root
         operands, symvals = [], {}
+        fresh_names = rng.sample(NAMES, len(NAMES))
         for oi in range(ar):
             ks = rng.sample(canon, rng.randint(1, min(len(canon), 2 if heavy else 4)))
             if rng.random() < 0.5:
                 rng.shuffle(ks)
+            if op == 'sqrt':               # a Study number: scalar part (positive) + one blade squaring to a scalar
+                blade = rng.choice([k for k in canon if k] or [0])
+                ks = [0, blade] if blade else [0]
             vals, nums = [], []
             for k in ks:
                 numeric = rng.random() < 0.3
                 v = Fraction(rng.randint(-5, 5) or 1, rng.randint(1, 3))
+                if op == 'sqrt' and k == 0:
+                    v = Fraction(rng.randint(6, 9), rng.randint(1, 2))
                 if numeric:
                     vals.append(rat(v) if rng.random() < 0.5 else int(v.numerator) if v.denominator == 1 else rat(v))
                 else:
-                    s = sympy.Symbol(f'{"xy"[oi]}{alg.bin2canon[k][1:]}')
+                    s = sympy.Symbol(fresh_names.pop())
                     vals.append(s); symvals[s] = v
                 nums.append(v if numeric else v)
             operands.append((ks, vals, nums))
@@ -64,15 +79,19 @@ def run(R, tier):
         smvs = [MultiVector.fromkeysvalues(alg, tuple(ks), list(vals)) for ks, vals, _ in operands]
         nmvs = [MultiVector.fromkeysvalues(alg, tuple(ks), [symvals[v] if isinstance(v, sympy.Symbol) else Fraction(int(v.p), int(v.q)) if hasattr(v, 'p') else Fraction(v)
                                                             for v in vals]) for ks, vals, _ in operands]
+        def run_op(mvs):
+            return getattr(mvs[0], op)() if root else getattr(alg, op)(*mvs)
+        if root:
+            nmvs = [MultiVector.fromkeysvalues(alg, m.keys(), [float(v) for v in m.values()]) for m in nmvs]
         try:
-            num = getattr(alg, op)(*nmvs)
-            numres = ('ok', [(int(k), Fraction(v)) for k, v in zip(num.keys(), num.values())])
+            num = run_op(nmvs)
+            numres = ('ok', [(int(k), Fraction(v) if not root else Fraction(float(v)).limit_denominator(10 ** 12)) for k, v in zip(num.keys(), num.values())])
         except ZeroDivisionError:
             numres = ('zde', None)
         except Exception as e:  # noqa
             numres = ('err', type(e).__name__)
         try:
-            sym = getattr(alg, op)(*smvs)
+            sym = run_op(smvs)
             symres = ('ok', sym)
         except ZeroDivisionError:
             symres = ('zde', None)
@@ -93,6 +112,7 @@ def run(R, tier):
         want = dict(numres[1])
 
         def compare(tag, keys, values):
+            nonlocal want
             got = {}
             for k, v in zip(keys, values):
                 try:
@@ -129,6 +149,23 @@ def run(R, tier):
                 pass
             except Exception as e:  # noqa
                 viol('call-raises', f'calling the symbolic result of {op} raised {type(e).__name__}: {e}', algebra=spec, op=op)
+            # another symbolic multivector with the same blades on the same algebra object, called in between:
+            # each call must evaluate its own coefficients
+            try:
+                twice = sym + sym
+                if twice.free_symbols == sym.free_symbols and not root:
+                    kw = {nm: rat(byname[nm]) for nm in names}
+                    r4 = twice(**kw)
+                    want_save = want
+                    want = {k: 2 * v for k, v in want_save.items()}
+                    compare('call-second-multivector', r4.keys(), list(r4.values()))
+                    want = want_save
+                    r5 = sym(**kw)
+                    compare('call-after-second-multivector', r5.keys(), list(r5.values()))
+            except ZeroDivisionError:
+                pass
+            except Exception as e:  # noqa
+                viol('call-raises', f'calling (x+x) for the symbolic result x of {op} raised {type(e).__name__}: {e}', algebra=spec, op=op)
             # a foreign keyword must not be bound silently
             if len(names) >= 1:
                 bad = dict({nm: rat(byname[nm]) for nm in names[1:]}, zz_foreign=sympy.Integer(7))
